@@ -212,6 +212,8 @@ def _pool_worker(fn, init, tq, rq):
             rq.put(("error", idx, traceback.format_exc()))
             os._exit(4)
         poisoned = isinstance(out, dict) and out.get("_poisoned")
+        if os.environ.get("VERIF_DEBUG_POOL"):
+            print("worker", os.getpid(), "done", idx, "poisoned", poisoned, file=sys.stderr, flush=True)
         rq.put(("done", idx, out))
         if poisoned:
             # let the feeder thread flush
@@ -247,22 +249,31 @@ def pmap(fn, tasks, nproc=None, init=None, progress=None):
     results = [None] * n
     got = 0
     inflight = {}
+
+    def reap(quiet):
+        """Remove dead workers; a dead worker with a task in flight is an error only once the
+        result queue has been quiet (its last messages may still be in the pipe)."""
+        for p in list(procs):
+            if not p.is_alive():
+                lost = [i for i, pid in inflight.items() if pid == p.pid]
+                if lost and not quiet:
+                    continue
+                procs.remove(p)
+                if lost:
+                    raise MachineryError(
+                        f"worker {p.pid} died (exit {p.exitcode}) while running task {lost}"
+                    )
+        while len(procs) < nproc and got + len(inflight) < n:
+            spawn()
+
     try:
         while got < n:
             try:
                 kind, idx, payload = rq.get(timeout=1.0)
             except Exception:
-                # check for silent deaths
-                for p in list(procs):
-                    if not p.is_alive():
-                        procs.remove(p)
-                        lost = [i for i, pid in inflight.items() if pid == p.pid]
-                        if lost and p.exitcode != EXIT_POISONED:
-                            raise MachineryError(
-                                f"worker {p.pid} died (exit {p.exitcode}) on task {lost}"
-                            )
-                        if got + len(inflight) < n or lost:
-                            spawn()
+                if os.environ.get("VERIF_DEBUG_POOL"):
+                    print("pool: got", got, "of", n, "inflight", inflight, "procs", [(p.pid, p.is_alive(), p.exitcode) for p in procs], file=sys.stderr, flush=True)
+                reap(quiet=True)
                 continue
             if kind == "start":
                 inflight[idx] = payload
@@ -276,12 +287,7 @@ def pmap(fn, tasks, nproc=None, init=None, progress=None):
                 raise MachineryError(f"task {idx} raised in worker:\n{payload}")
             elif kind == "initfail":
                 raise MachineryError(f"worker init failed:\n{payload}")
-            # replace poisoned workers promptly
-            for p in list(procs):
-                if not p.is_alive():
-                    procs.remove(p)
-                    if got + len(inflight) < n:
-                        spawn()
+            reap(quiet=False)
     finally:
         for _ in procs:
             tq.put(None)
